@@ -15,6 +15,9 @@
 // themselves), resp. the set of leaf sub-ranges of a parallel_for.
 // A miss means the model is too narrow (fix tbbrt) - it is not a finding about manifold.
 // VBUILD: variants=par-model,par-tbb
+#ifdef VERIF_TBBRT
+#define TBBCONF_MODEL 1
+#endif
 #include <tbb/blocked_range.h>
 #include <tbb/parallel_for.h>
 #include <tbb/parallel_invoke.h>
